@@ -29,6 +29,7 @@ FLAVORS = {
 }
 ASAN_ENV = {"ASAN_OPTIONS": "abort_on_error=1:detect_leaks=0:allocator_may_return_null=1:malloc_context_size=8",
             "UBSAN_OPTIONS": "print_stacktrace=1:halt_on_error=1"}
+VALGRIND = ["valgrind", "--quiet", "--error-exitcode=97", "--leak-check=no", "--track-origins=no", "--num-callers=12"]
 CXX = os.environ.get("VERIF_CXX", "g++")
 BASE_FLAGS = ["-std=c++17", "-w", "-pipe"]
 
@@ -355,4 +356,7 @@ def run_driver(exe: str, args: list, stdin: bytes, flavor: str = "plain", cpu_s:
     env = dict(os.environ)
     if flavor == "asan":
         env.update(ASAN_ENV)
+    if flavor == "valgrind":
+        # memcheck as a second opinion on the uninstrumented NDEBUG build: it also sees reads of uninitialised memory, which ASan does not
+        return common.run(VALGRIND + [exe] + args, stdin=stdin, env=env, cpu_s=cpu_s)
     return common.run([exe] + args, stdin=stdin, env=env, cpu_s=cpu_s)
